@@ -487,6 +487,42 @@ def step (ss : Slots) (line : String) : Slots × List String :=
         | some (sl, out) => let ss := setSlot ss s sl; (ss, ("R " ++ out) :: dumpSlot s sl)
         | none => (ss, [bad])
       | none => (ss, [bad])
+  | verb :: a :: b :: "ord" :: rest =>
+    -- subgraph a b ord v…   /  subgraphremap a b ord v…
+    match nat? a, nat? b, natList rest with
+    | some a, some b, some ord =>
+      match verb, getSlot ss a with
+      | "subgraph", .gr und g =>
+        let (sl, out) := ofRes (G.getSubgraph und g ord) (Slot.gr und)
+        let ss := setSlot ss b sl
+        (ss, ("R " ++ out) :: (dumpSlot a (.gr und g) ++ dumpSlot b sl))
+      | "subgraphremap", .gr und g =>
+        match G.getSubgraphWithRemap und g ord with
+        | .ok (h, mp) =>
+          let ss := setSlot ss b (.gr und h)
+          let mp := mp.toArray.qsort (fun x y => x.1 < y.1) |>.toList
+          (ss, ("R ok map=" ++ " ".intercalate (mp.map (fun p => s!"{p.1}:{p.2}"))) ::
+                (dumpSlot a (.gr und g) ++ dumpSlot b (.gr und h)))
+        | .threw e => (setSlot ss b .empty, ["R !" ++ e.name] ++ dumpSlot a (.gr und g) ++ dumpSlot b .empty)
+        | .ub => (setSlot ss b .empty, ["R !UB"] ++ dumpSlot a (.gr und g) ++ dumpSlot b .empty)
+      | _, _ => (ss, [bad])
+    | _, _, _ => (ss, [bad])
+  | "ctor" :: s :: cls :: kind :: _container :: rest =>
+    match nat? s, triples rest with
+    | some s, some es =>
+      let lab := kind != "none"
+      let r : Option (Slot × String) := match cls with
+        | "dir" => some (ofRes (G.ofEdgeList lab (fun h i j l f => h.dAddEdge i j l f) es) (Slot.gr false))
+        | "und" => some (ofRes (G.ofEdgeList lab (fun h i j l f => h.uAddEdge i j l f) es) (Slot.gr true))
+        | "dmulti" => some (ofRes (MG.dOfEdgeList (es.map (fun e => (e.1, e.2.1, e.2.2.toNat)))) (Slot.mg false))
+        | "umulti" => some (ofRes (MG.uOfEdgeList (es.map (fun e => (e.1, e.2.1, e.2.2.toNat)))) (Slot.mg true))
+        | "dw" => some (ofRes (WG.dOfEdgeList es) (Slot.wg false))
+        | "uw" => some (ofRes (WG.uOfEdgeList es) (Slot.wg true))
+        | _ => none
+      match r with
+      | some (sl, out) => let ss := setSlot ss s sl; (ss, ("R " ++ out) :: dumpSlot s sl)
+      | none => (ss, [bad])
+    | _, _ => (ss, [bad])
   | ["openfail", _, _, _, _] => (ss, ["R !rte"])
   | [verb, a, b, kind] =>
     if verb == "roundtriptext" || verb == "roundtripbin" then
@@ -570,42 +606,6 @@ def step (ss : Slots) (line : String) : Slots × List String :=
         | some (sl, out) => let ss := setSlot ss s sl; (ss, ("R " ++ out) :: dumpSlot s sl)
         | none => (ss, [bad])
       | none => (ss, [bad])
-  | "ctor" :: s :: cls :: kind :: _container :: rest =>
-    match nat? s, triples rest with
-    | some s, some es =>
-      let lab := kind != "none"
-      let r : Option (Slot × String) := match cls with
-        | "dir" => some (ofRes (G.ofEdgeList lab (fun h i j l f => h.dAddEdge i j l f) es) (Slot.gr false))
-        | "und" => some (ofRes (G.ofEdgeList lab (fun h i j l f => h.uAddEdge i j l f) es) (Slot.gr true))
-        | "dmulti" => some (ofRes (MG.dOfEdgeList (es.map (fun e => (e.1, e.2.1, e.2.2.toNat)))) (Slot.mg false))
-        | "umulti" => some (ofRes (MG.uOfEdgeList (es.map (fun e => (e.1, e.2.1, e.2.2.toNat)))) (Slot.mg true))
-        | "dw" => some (ofRes (WG.dOfEdgeList es) (Slot.wg false))
-        | "uw" => some (ofRes (WG.uOfEdgeList es) (Slot.wg true))
-        | _ => none
-      match r with
-      | some (sl, out) => let ss := setSlot ss s sl; (ss, ("R " ++ out) :: dumpSlot s sl)
-      | none => (ss, [bad])
-    | _, _ => (ss, [bad])
-  | verb :: a :: b :: "ord" :: rest =>
-    -- subgraph a b ord v…   /  subgraphremap a b ord v…
-    match nat? a, nat? b, natList rest with
-    | some a, some b, some ord =>
-      match verb, getSlot ss a with
-      | "subgraph", .gr und g =>
-        let (sl, out) := ofRes (G.getSubgraph und g ord) (Slot.gr und)
-        let ss := setSlot ss b sl
-        (ss, ("R " ++ out) :: (dumpSlot a (.gr und g) ++ dumpSlot b sl))
-      | "subgraphremap", .gr und g =>
-        match G.getSubgraphWithRemap und g ord with
-        | .ok (h, mp) =>
-          let ss := setSlot ss b (.gr und h)
-          let mp := mp.toArray.qsort (fun x y => x.1 < y.1) |>.toList
-          (ss, ("R ok map=" ++ " ".intercalate (mp.map (fun p => s!"{p.1}:{p.2}"))) ::
-                (dumpSlot a (.gr und g) ++ dumpSlot b (.gr und h)))
-        | .threw e => (setSlot ss b .empty, ["R !" ++ e.name] ++ dumpSlot a (.gr und g) ++ dumpSlot b .empty)
-        | .ub => (setSlot ss b .empty, ["R !UB"] ++ dumpSlot a (.gr und g) ++ dumpSlot b .empty)
-      | _, _ => (ss, [bad])
-    | _, _, _ => (ss, [bad])
   | verb :: s :: args =>
     match nat? s with
     | some s =>
